@@ -32,6 +32,48 @@ var Quirks = []Quirk{
 	{ID: "C01-two-schemes-same-type", Detect: hasTwoSchemesSameType, SigAny: []string{"redeclared", "duplicate method"}},
 	{ID: "C01-body-fields-user-type", Detect: hasBodyFieldsUserType, SigAny: []string{"client/types: cannot use _ (variable of type *struct{…}"}},
 	{ID: "C01-body-fields-inline-required", Detect: hasBodyFieldsInlineRequired, SigAny: []string{"== nil (mismatched types", "cannot indirect"}},
+	{ID: "C01-response-cookie-nonstring", Detect: hasNonStringResponseCookie, SigAny: []string{"server/encode_decode"}},
+	{ID: "C01-result-type-required-validated-response-header", Detect: hasResultTypeRequiredValidatedHeader, SigAny: []string{"client/encode_decode: invalid operation: _ != nil (mismatched types"}},
+}
+
+// hasNonStringResponseCookie: a result attribute that is not a String mapped to a response cookie.
+func hasNonStringResponseCookie(d *m.Design) bool {
+	return eachMethod(d, func(s *m.Service, meth *m.Method) bool {
+		if meth.HTTP == nil || meth.Result == nil {
+			return false
+		}
+		for _, r := range meth.HTTP.Responses {
+			for _, c := range r.Cookies {
+				if f := d.FieldByName(meth.Result, c.Attr); f != nil && d.Underlying(f.Attr) != m.String {
+					return true
+				}
+			}
+		}
+		return false
+	})
+}
+
+// hasResultTypeRequiredValidatedHeader: a method whose result is a result
+// type (views) maps a required or defaulted attribute (non-pointer Go
+// variable) that carries a validation to a response header or cookie.
+func hasResultTypeRequiredValidatedHeader(d *m.Design) bool {
+	return eachMethod(d, func(s *m.Service, meth *m.Method) bool {
+		if meth.HTTP == nil || meth.Result == nil || meth.Result.Type.Kind != m.User {
+			return false
+		}
+		ut := d.TypeByName(meth.Result.Type.User)
+		if ut == nil || !ut.Result {
+			return false
+		}
+		for _, r := range meth.HTTP.Responses {
+			for _, mp := range append(append([]m.Mapping{}, r.Headers...), r.Cookies...) {
+				if f := d.FieldByName(meth.Result, mp.Attr); f != nil && (f.Required || f.Attr.Default != nil) && !MergedValidation(d, f.Attr).Empty() {
+					return true
+				}
+			}
+		}
+		return false
+	})
 }
 
 // OpenQuirks returns the IDs of the quirks whose finding is listed as open:
